@@ -15,6 +15,9 @@ CONSTANTS
   RealTime = TRUE
   CeilOnCut = TRUE
   CeilOnStore = TRUE
+  KindSet <- KindPos
+  Lats <- NoLat
+  CutAdmitsPast = FALSE
 INIT Init
 NEXT Next
 INVARIANTS NeverStaleWindow
